@@ -116,3 +116,25 @@ package arg
 //@   invariant loop 1 rendering: -1 <= rangeindex && rangeindex < len(params) && fresh(s) && elems_unchanged_since_entry(reflect.Value) && elems_unchanged_since_entry(string) && elems_unchanged_since_entry(any)
 //@     | && arr(params) != textref && forall i int :: 0 <= i && i < len(params) ==> rv_valid(params[i])
 //@   decreases loop 1 len(params) - rangeindex
+
+// ---- C09/C13: I2V converts every user value for ITS OWN parameter / result type ------------------------------------------
+// i2v_type(types, i, variadic): the type the i-th value is converted for - the i-th declared type, or for the tail of a
+// variadic signature the element type of the last one.
+//@ pure func i2v_type(types []reflect.Type, i int, isVariadic bool) reflect.Type = ite(i < len(types) - 1, types[i], ite(isVariadic, rt_elem(types[len(types) - 1]), types[len(types) - 1]))
+//@ pure func i2v_converted(o interface{}, v reflect.Value, t reflect.Type) bool = (o == nil && nil_gets_typed_zero(rt_kind(t)) ==> rv_valid(v) && rv_type(v) == t && rv_iszero(v))
+//@   | && (o != nil && rt_kind(t) == reflect.Interface ==> rv_valid(v) && rv_type(v) == t && rv_addressable(v))
+//@   | && (o != nil && rt_kind(t) != reflect.Interface ==> rt_size(rt_of(typeof(o))) == rt_size(t))
+//@   | && (o != nil && rt_kind(t) != reflect.Interface && rt_kind(t) != reflect.Struct && rt_kind(t) != reflect.Ptr ==> v == value_of(o))
+//@ func I2V
+//@   props C09 C13
+//@   requires types: (forall k int :: 0 <= k && k < len(types) ==> types[k] != nil) && (isVariadic ==> len(types) >= 1 && rt_kind(types[len(types) - 1]) == reflect.Slice) && len(types) < 0x10000 && len(objs) < 0x10000
+//@   assigns varval
+//@   invariant loop 1 converted_so_far: 0 <= rangeindex + 1 && rangeindex + 1 <= len(objs) && len(values) == len(objs) && fresh(values)
+//@     | && (forall k int :: 0 <= k && k < len(types) ==> types[k] != nil) && (isVariadic ==> len(types) >= 1 && rt_kind(types[len(types) - 1]) == reflect.Slice)
+//@     | && (isVariadic ==> len(objs) >= len(types) - 1) && (!isVariadic ==> len(objs) == len(types))
+//@     | && (forall j int :: 0 <= j && j <= rangeindex ==> i2v_converted(objs[j], values[j], i2v_type(types, j, isVariadic)))
+//@   decreases loop 1 len(objs) - rangeindex
+//@   ensures count_checked_first: (!isVariadic && len(objs) != len(types)) || (isVariadic && len(objs) < len(types) - 1) ==> result1 != nil
+//@   ensures one_value_per_argument: result1 == nil ==> len(result0) == len(objs)
+//@   ensures each_converted_for_its_own_type: result1 == nil ==> forall j int :: 0 <= j && j < len(objs) ==> i2v_converted(objs[j], result0[j], i2v_type(types, j, isVariadic))
+//@   panics_only_if conversion_rejected: true
